@@ -73,6 +73,11 @@ func (msg *Message) DecodeMsg(dc *msgp.Reader) error {
 		return msgp.WrapError(err, "Array Header")
 	}
 
+	// only the element counts the protocol allows: anything else would be read short or past its end
+	if sz != 3 && sz != 4 {
+		return msgp.ArrayError{Wanted: 4, Got: sz}
+	}
+
 	// a reused receiver must not keep the options of an earlier message
 	msg.Options = nil
 
@@ -115,6 +120,11 @@ func (msg *Message) UnmarshalMsg(bits []byte) ([]byte, error) {
 
 	if sz, bits, err = msgp.ReadArrayHeaderBytes(bits); err != nil {
 		return bits, msgp.WrapError(err, "Array Header")
+	}
+
+	// only the element counts the protocol allows: anything else would be read short or past its end
+	if sz != 3 && sz != 4 {
+		return bits, msgp.ArrayError{Wanted: 4, Got: sz}
 	}
 
 	// a reused receiver must not keep the options of an earlier message
@@ -211,6 +221,11 @@ func (msg *MessageExt) DecodeMsg(dc *msgp.Reader) error {
 		return msgp.WrapError(err, "Array Header")
 	}
 
+	// only the element counts the protocol allows: anything else would be read short or past its end
+	if sz != 3 && sz != 4 {
+		return msgp.ArrayError{Wanted: 4, Got: sz}
+	}
+
 	// a reused receiver must not keep the options of an earlier message
 	msg.Options = nil
 
@@ -253,6 +268,11 @@ func (msg *MessageExt) UnmarshalMsg(bits []byte) ([]byte, error) {
 
 	if sz, bits, err = msgp.ReadArrayHeaderBytes(bits); err != nil {
 		return bits, msgp.WrapError(err, "Array Header")
+	}
+
+	// only the element counts the protocol allows: anything else would be read short or past its end
+	if sz != 3 && sz != 4 {
+		return bits, msgp.ArrayError{Wanted: 4, Got: sz}
 	}
 
 	// a reused receiver must not keep the options of an earlier message
